@@ -266,4 +266,5 @@ package db
 //@   assert before call#1 Marshal: sameslice(callarg(SortFunc, 1, 0), schemaSet)
 //@   assert before call#1 NewSHA256CidV1: sameslice(arg0, res(Marshal, 1, 0)) && res(Marshal, 1, 1) == nil
 //@   ensures err == nil ==> id == res(String, 1, 0) && callarg(String, 1, 0) == res(NewSHA256CidV1, 1, 0)
+//@   modifies failed
 //@   tags C13
